@@ -1,5 +1,5 @@
 """C03  sample_count, sample_size and threads fix the number of calls exactly."""
-from lib.facts import direct_place, const_int, origins, place_fields, norm, nophi
+from lib.facts import direct_place, const_int, origins, place_fields, norm, nophi, place_root_fields
 from lib import tables
 from .sampling import Sampling, PAR_EXTEND
 from .common import Recorder
@@ -208,7 +208,7 @@ def r03_3(ctx, S, prog, crate):
                       [y.path, "one-sample-per-index"], "the task does not record exactly one sample per broadcast index", y.where(0))
     # samples.sample_size written from the same sample_size call
     for bi, si, s in b.stmts():
-        if s["k"] == "assign" and s["p"]["l"] == 1 and place_fields(s["p"]) == ("samples", "sample_size"):
+        if s["k"] == "assign" and s["p"]["proj"] and place_root_fields(b, s["p"]) == (1, ("samples", "sample_size")):
             d = direct_place(b, s["rv"]["o"]) if s["rv"]["k"] == "use" else None
             ctx.check(d is not None and d[0] == "call" and d[1].callee == "benchmark::BenchMode::sample_size" and bi in S.loop["body"], "R03.3",
                       [b.path, "stored-sample_size-is-this-rounds"], "samples.sample_size is not set from current_mode.sample_size()", b.where(bi))
